@@ -537,7 +537,9 @@ pub fn step(w: &mut Option<World>, line: &str) -> (String, String) {
                 if b & 0x8000_0000 != 0 { (!b) as u64 } else { (b | 0x8000_0000) as u64 }
             };
             let kk = k.saturating_mul(2);
-            let hot_raw = if kk > 0 { hot.knn_search(&q, kk) } else { vec![] };
+            // the WHOLE content of the recent-write tier in scan order (the engine widens its cut
+            // past stale mirrors, so the model needs what lies behind the first 2k)
+            let hot_raw = if kk > 0 { hot.knn_search(&q, hot.len().saturating_add(1)) } else { vec![] };
             let hot_ann: Vec<String> = hot_raw
                 .iter()
                 .map(|(id, d)| {
